@@ -38,6 +38,7 @@ FAULT_KINDS = ["crash_between_requests", "second_crash", "crash_before_open", "t
                "lost_write", "stray_file"]
 PROBES = ["restored_with_settings_history", "restored_instance_stepped", "torn_inside_inner_string", "damaged_file_contained",
           "startup_with_stray_file", "several_instances_restored", "never_externalised_instance_exempt", "long_history_restored"]
+THOROUGH_PROBES = ["child_process_cross_check"]
 EXHAUSTIVE = {"quick": False, "thorough": False}
 
 STRAYS = ["README", "x.json.tmp", ".DS_Store", "notes.json"]
@@ -137,6 +138,10 @@ def plan(tier, verif_seed):
                 yield {"h": h, "hseed": hseed, "k": k, "fault": fv, "stray": None, "long": long,
                        "keep_sample": first and h < 2}
                 first = False
+            if tier == "thorough" and (h * 31 + k) % 40 == 0:
+                # cross-check of the in-process crash model against real child processes
+                yield {"h": h, "hseed": hseed, "k": k, "fault": None if k % 2 else ({"kind": "torn", "cls": "inner"} if 1 <= k <= N and hist["ops"][k - 1]["op"] in SAVING else None),
+                       "stray": None, "long": long, "child": True}
             # one double-crash variant per crash point: the server is lost again right after the
             # restart (k2 = k) or after one more request (k2 = k+1)
             yield {"h": h, "hseed": hseed, "k": k, "k2": k + ((h + k) % 2), "fault": None, "stray": None, "long": long}
@@ -149,6 +154,8 @@ def generate(spec):
         return long_case(spec["directed_long"])
     case = gen_history(spec["hseed"], spec.get("long", False))
     case["crash"] = {"k": spec["k"], "fault": spec["fault"], "stray": spec["stray"], "k2": spec.get("k2")}
+    if spec.get("child"):
+        case["child"] = True
     return case
 
 
@@ -290,6 +297,73 @@ def _step_results(body):
     return []
 
 
+def child_process_run(case):
+    """the same crash, but with every server incarnation in its own OS process on a real directory
+    (real clock, real uuids, real files).  Returns {op index: (status, body)} or raises HarnessError."""
+    import json
+    import os
+    import shutil
+    import subprocess
+    import sys
+    import tempfile
+    from sim.core import HarnessError
+    from sim.fs import fault_cut
+    here = os.path.dirname(os.path.dirname(os.path.abspath(__file__)))
+    tmp = tempfile.mkdtemp(prefix="verif-c20child-%d-" % os.getpid())
+    sdir = os.path.join(tmp, "state")
+    os.makedirs(sdir)
+    ops = case["ops"]
+    crash = case["crash"]
+    k = crash["k"]
+    fault = crash.get("fault")
+    out = {}
+    try:
+        def child(sel, ids):
+            job = {"model": case["config"]["model"], "adapter": case["config"]["adapter"], "dir": sdir, "cwd": tmp,
+                   "ops": [[n, o] for n, o in enumerate(ops, start=1) if sel(n)], "ids": ids}
+            p = subprocess.run([sys.executable, os.path.join(here, "tools", "c20_child.py")], input=json.dumps(job), capture_output=True,
+                               text=True, timeout=600, env=dict(os.environ, PYTHONHASHSEED="0"))
+            line = [l for l in p.stdout.splitlines() if l.startswith("RESULT ")]
+            if not line:
+                raise HarnessError("C20 child process failed: " + (p.stdout + p.stderr)[-800:])
+            return json.loads(line[0][7:])
+        r1 = child(lambda n: n <= k, {})
+        for n, v in r1["responses"].items():
+            if not (fault and int(n) == k):
+                out[int(n)] = (v[0], v[1])
+        ids = r1["ids"]
+        if fault and fault["kind"] == "torn" and 1 <= k <= len(ops):
+            iid = ids.get(str(ops[k - 1]["inst"]))
+            path = os.path.join(sdir, "%s.json" % iid)
+            if os.path.exists(path):
+                whole = open(path).read()
+                with open(path, "w") as f:
+                    f.write(whole[:fault_cut(whole, fault.get("cls", "half"), fault.get("n"))])
+        if crash.get("stray"):
+            with open(os.path.join(sdir, crash["stray"]), "w") as f:
+                f.write("{not json" if crash["stray"].endswith(".json") else "hello\n")
+        r2 = child(lambda n: n > k, ids)
+        if r2["boot_error"]:
+            return out, r2["boot_error"]
+        for n, v in r2["responses"].items():
+            out[int(n)] = (v[0], v[1])
+        return out, None
+    finally:
+        shutil.rmtree(tmp, ignore_errors=True)
+
+
+def _norm_ids(got, ids):
+    import json
+    out = {}
+    for n, (st, body) in got.items():
+        text = json.dumps(body)
+        for j, iid in ids.items():
+            if iid:
+                text = text.replace(iid, "INST%s" % j)
+        out[n] = (st, json.loads(text))
+    return out
+
+
 def execute(case):
     log = EventLog()
     res = RunResult()
@@ -298,6 +372,20 @@ def execute(case):
     k = crash["k"]
     fault = crash.get("fault")
     got, info = _run(case, crash, log, res)
+    if case.get("child"):
+        # cross-check of the crash MODEL (not of the repository): real processes must see what the
+        # in-process incarnations saw.  A difference is a harness error, never a verdict.
+        from sim.core import HarnessError
+        cgot, cboot = child_process_run(case)
+        res.probe("child_process_cross_check")
+        if bool(cboot) != bool(info["boot_error"]):
+            raise HarnessError("in-process restart and child-process restart disagree on start-up: %r vs %r" % (info["boot_error"], cboot))
+        if not cboot:
+            mine = _norm_ids(got, info.get("ids", {}))
+            for n in sorted(set(mine) | set(cgot)):
+                a, b = mine.get(n), cgot.get(n)
+                if a is None or b is None or a[0] != b[0] or a[1] != b[1]:
+                    raise HarnessError("in-process restart differs from real child processes at request %d: %r vs %r" % (n, str(a)[:300], str(b)[:300]))
     if info["boot_error"]:
         res.violate("C20.3-startup-failed", {"error": info["boot_error"][:200], "fault": fault, "stray": crash.get("stray"), "k": k})
         res.nontrivial = True
